@@ -315,8 +315,13 @@ def tasks(tier):
     eqs = equation_classes(repo)
     # group the classes by module so that a task is one file
     mods = sorted(set(m for m, c in eqs))
+    # Group([eq]).get_array_names() is what the checker relies on for the
+    # implicit names: the union it computes is proved here (group_names),
+    # the closure of the precomputed symbols is C02's bounded check
+    # (re-run here as dep.c02.*)
     return ['eq:%s' % m for m in mods] + ['names', 'steppers', 'order',
-                                          'canary']
+                                          'canary', 'group_names',
+                                          'dep:C02:closure']
 
 
 # ------------------------------------------------------------------ replays
@@ -387,8 +392,68 @@ def replay_eq(mn, cn, need, kinds):
 
 
 # --------------------------------------------------------------------- tasks
+def task_group_names(ctx, repo):
+    """Group.get_array_names = arrays of every equation united with the
+    arrays of every precomputed code block; cached afterwards, and the cache
+    is returned as copies"""
+    m = repo.module(EQ)
+    fn = m.methods('Group')['get_array_names']
+    W = m.path
+
+    def cb(src, dst):
+        return SymObject(None, dict(src_arrays=set(src), dest_arrays=set(
+            dst)), 'cb')
+    obs = []
+    eq1 = SymObject(None, {}, 'eq1')
+    eq2 = SymObject(None, {}, 'eq2')
+    used = {'eq1': (set(['s_m']), set(['d_rho'])),
+            'eq2': (set(['s_p', 's_m']), set(['d_au']))}
+    pre = {'XIJ': cb(['s_x', 's_y'], ['d_x', 'd_y']),
+           'HIJ': cb(['s_h'], ['d_h']), 'R2IJ': cb([], [])}
+    obj = SymObject('Group', dict(equations=[eq1, eq2], precomputed=pre,
+                                  src_arrays=None, dest_arrays=None), 'self')
+    obj.module = m.name
+    ex = Executor(repo, m, qualname='Group.get_array_names', merge=False,
+                  externals={'get_arrays_used_in_equation':
+                             lambda e, s_, a, k, n: tuple(set(x) for x in
+                                                          used[a[0].name])})
+    outs = ex.exec_function(fn, dict(self=obj, recompute=False))
+    ctx.function(m, fn, 'Group.get_array_names', ex.dropped)
+    want = (set(['s_m', 's_p', 's_x', 's_y', 's_h']),
+            set(['d_rho', 'd_au', 'd_x', 'd_y', 'd_h']))
+    ok = len(outs) == 1 and outs[0].kind == 'return' and \
+        tuple(set(x) for x in outs[0].value) == want
+    obs.append(Obligation('group_names.union', [], z3.BoolVal(bool(ok)), W,
+                          extra=dict(got=str(outs[0].value)[:200]
+                                     if outs else None)))
+    # cached: returns copies of the cache, recompute=True ignores it
+    obj2 = SymObject('Group', dict(equations=[eq1], precomputed={},
+                                   src_arrays=set(['s_q']),
+                                   dest_arrays=set(['d_q'])), 'self')
+    obj2.module = m.name
+    ex = Executor(repo, m, qualname='Group.get_array_names', merge=False,
+                  externals={'get_arrays_used_in_equation':
+                             lambda e, s_, a, k, n: tuple(set(x) for x in
+                                                          used[a[0].name])})
+    o1 = ex.exec_function(fn, dict(self=obj2, recompute=False))
+    ok1 = len(o1) == 1 and tuple(set(x) for x in o1[0].value) == (
+        set(['s_q']), set(['d_q'])) and \
+        o1[0].value[0] is not o1[0].state.env['self'].attrs['src_arrays']
+    o2 = ex.exec_function(fn, dict(self=obj2, recompute=True))
+    ok2 = len(o2) == 1 and tuple(set(x) for x in o2[0].value) == (
+        set(['s_m']), set(['d_rho']))
+    obs.append(Obligation('group_names.cache', [], z3.BoolVal(bool(
+        ok1 and ok2)), W))
+    ctx.prove('group_names.union_of_equations_and_precomputed_blocks', obs)
+
+
 def run_task(task, ctx):
+    if task.startswith('dep:'):
+        from contracts import deps
+        return deps.run_dep(task, ctx)
     repo = Repo()
+    if task == 'group_names':
+        return task_group_names(ctx, repo)
     if task.startswith('eq:'):
         return task_eq_module(ctx, repo, task[3:])
     if task == 'names':
